@@ -834,6 +834,15 @@ orc_x86_compile (OrcCompiler *compiler)
     return;
   }
 
+  if (compiler->has_iterator_opcode && compiler->loop_shift == 0) {
+    /* upsampling loads advance their source by half an element per
+     * element: they need at least two elements per iteration */
+    orc_compiler_error (compiler,
+        "upsampling load with one element per iteration");
+    compiler->result = ORC_COMPILE_RESULT_UNKNOWN_COMPILE;
+    return;
+  }
+
   /* Align the compiler variables */
   orc_x86_adjust_alignment (t, compiler);
 
